@@ -97,7 +97,7 @@ def _work(job):
                     secs=time.time() - t, detail=traceback.format_exc()[-3000:])]
 
 
-def run_pool(fn, args, nproc=None, chunksize=1):
+def run_pool(fn, args, nproc=None, chunksize=1, fresh_process_per_task=False):
     """Run fn(arg) for every arg on a fork pool; each call returns a result dict or a list of them."""
     args = list(args)
     if not args:
@@ -109,7 +109,7 @@ def run_pool(fn, args, nproc=None, chunksize=1):
             out.extend(_work((fn, a)))
         return out
     ctx = mp.get_context("fork")
-    with ctx.Pool(nproc, maxtasksperchild=None) as pool:
+    with ctx.Pool(nproc, maxtasksperchild=1 if fresh_process_per_task else None) as pool:
         for r in pool.imap_unordered(_work, [(fn, a) for a in args], chunksize=chunksize):
             out.extend(r)
     return out
